@@ -92,8 +92,8 @@ func (bucket *Bucket) CloseAndDelete(ctx context.Context) (err error) {
 	// which itself needs the bucket mutex to finish.
 	bucket.expManager.stop()
 	bucket.mutex.Lock()
-	defer bucket.mutex.Unlock()
 	bucket._closeSqliteDB()
+	bucket.mutex.Unlock() // released before taking the registry lock: unregisterBucket takes the two in the other order
 	return deleteBucket(ctx, bucket)
 }
 
